@@ -745,7 +745,8 @@ def run(seed, tier, budget_s):
     while i < n and batch.elapsed() < budget_s:
         plans = [gen_plan(core.run_rng(seed, PID, j), j)
                  for j in range(i, min(n, i + step))]
-        for p, r in zip(plans, core.map_plans(MOD, plans, chunk=2)):
+        _res = core.map_plans(MOD, plans, chunk=2)
+        for p, r in zip(plans, _res):
             batch.add(p, r)
             for k in r.get('pairs', []):
                 pair_cov[k] = pair_cov.get(k, 0) + 1
@@ -761,6 +762,9 @@ def run(seed, tier, budget_s):
                          'role': q.get('role'),
                          'fields': [[k, v[:80]] for k, v in q['fields']]}
                         for q in p['requests']]})
+        if i == 0:
+            core.cross_validate(MOD, batch, list(zip(plans, _res)),
+                                12 if tier == 'quick' else 60)
         i += step
     live, dead = carrier_liveness(seed)
     # pair probes are reported as a table, not as hundreds of probe counters
